@@ -277,8 +277,20 @@ class CmpInterp(object):
                 return _cmp(e.ops[0], s, 0)
             return _cmp(e.ops[0], a, b)
         if isinstance(e, ast.BoolOp):
-            vals = [self.ev(x, env) for x in e.values]
-            return all(vals) if isinstance(e.op, ast.And) else any(vals)
+            # Python value semantics: 'or' yields the first truthy operand (else the last), 'and' the first falsy one (else the last)
+            v = None
+            for x in e.values:
+                v = self.ev(x, env)
+                if isinstance(v, tuple):
+                    raise Unknown("truth value of a field")
+                if bool(v) == isinstance(e.op, ast.Or):
+                    return v
+            return v
+        if isinstance(e, ast.IfExp):
+            t = self.ev(e.test, env)
+            if isinstance(t, tuple):
+                raise Unknown("truth value of a field")
+            return self.ev(e.body if t else e.orelse, env)
         raise Unknown("expression %s" % short(e))
 
 
@@ -326,11 +338,11 @@ def r4_normalisation(cx):
     fn = m.func("_rpm_vercmp", "C13.R4")
     ps = params(fn)
     for p in ps[:2]:
-        defs = [a for a in walk_body(fn.body) if isinstance(a, ast.Assign) and U(a.targets[0]) == p]
+        defs = [a for a in walk_body(fn.body) if isinstance(a, ast.Assign)]
         comp = None
         for a in defs:
             for n in ast.walk(a.value):
-                if isinstance(n, (ast.ListComp, ast.GeneratorExp)) and U(n.generators[0].iter) == p:
+                if isinstance(n, (ast.ListComp, ast.GeneratorExp)) and U(n.generators[0].iter) == p and comp is None:
                     comp = (a, n)
         if comp is None:
             cx.unknown(fn, "cannot find the character-wise normalisation of '%s'" % p)
